@@ -130,8 +130,8 @@ def sha(path):
 def run(ctx):
     r = ctx.rng
     d = ctx.scratch
-    n_inputs = 8 if ctx.quick else 60
-    runs_per_input = 10 if ctx.quick else 60
+    n_inputs = 8 if ctx.quick else 40
+    runs_per_input = 8 if ctx.quick else 40
     pars = [1, 2, 3, 24]
     # --- small-instance exhaustive exploration of the model (cross-check of the theorems + search machinery)
     explore = ["pm-explore 1 1 1 200000 all", "pm-explore 2 2 1 200000 all", "pm-explore 2 1 2 200000 all", "pm-explore 2 2 2 200000 all",
